@@ -339,7 +339,7 @@ def run_psk(run, P):
             return None
         ctx = solve(f, Env({'cb': ()}), on_event, None, keys, R, on_branch=on_branch, key_fn=lambda e: (e.ts.get('cb'), e.ts.get('inst'), e.ts.get('called'), tuple(e.nullf(v) for v in sorted(vvars)), tuple((e.intf(a)[0] >= 0, e.intf(a)[1] < 0) for a in sorted(retaps0))))
         run.stats['psk_solver_steps'] += ctx.steps
-    run.require(n >= 2 or run.fixture_mode, 'R-PSK-VERDICT: fewer than 2 identity/hint validation call sites found in the TLS back end')
+    run.require_count(n >= 2 or run.fixture_mode, 'R-PSK-VERDICT: fewer than 2 identity/hint validation call sites found in the TLS back end')
 
 
 def run_event_reset(run, P, units=('coap_gnutls.c',)):
@@ -394,4 +394,42 @@ def run_event_reset(run, P, units=('coap_gnutls.c',)):
                                   'call (for instance a ClientHello that was refused) left in the field' % FIELD, ctx.path())
             return env
         solve(f, Env(), on_event, None, keys, R, key_fn=lambda e: e.ts.get('reset'), on_branch=on_branch)
-    run.require(n >= (4 if run.cfg == 'base' else 0) or run.fixture_mode, 'R-ROUTE(stale event): fewer than 4 functions that act on dtls_event found')
+    run.require_count(n >= (4 if run.cfg == 'base' else 0) or run.fixture_mode, 'R-ROUTE(stale event): fewer than 4 functions that act on dtls_event found')
+
+
+def run_sni_cache(run, P, field='sni'):
+    """R-PSK-VERDICT (the cache stands for the name that was accepted): the back end asks the application about a server name once and
+    keeps the credentials it returned under that name; a later ClientHello with a cached name is not shown to the application again.  A
+    cache hit therefore means EQUAL names: every comparison against an entry's `sni` string is a whole-string comparison (strcmp /
+    strcasecmp), never a bounded one (strncmp / strncasecmp / memcmp): bounded by the length of the name the client sent, "tenant" --
+    or no name at all, length 0 -- hits the entry of "tenant.example" and a client the application would have refused gets that
+    tenant's credentials, completes the handshake and is served."""
+    run.rule('R-PSK-VERDICT')
+    WHOLE = ('strcmp', 'strcasecmp')
+    BOUNDED = ('strncmp', 'strncasecmp', 'memcmp')
+    n = 0
+    for f in sorted(P.lib_funcs(), key=lambda f: f['name']):
+        nodes = [(ev['loc'], ev['e']) for b, ev in P.events(f) if ev.get('top', True)]
+        for b in f['blocks']:
+            c = (b.get('term') or {}).get('cond')
+            if c is not None:
+                nodes.append(((b['term'].get('loc') or f['loc']), c))
+        seen = set()
+        for loc, t in nodes:
+            for x in walk(t):
+                if not (isinstance(x, dict) and x.get('k') == 'call' and x.get('fn') in WHOLE + BOUNDED):
+                    continue
+                if not any(isinstance(y, dict) and y.get('k') == 'mem' and y.get('f') == field for a in (x.get('a') or [])[:2] for y in walk(a)):
+                    continue
+                if (loc, short(x)) in seen:
+                    continue
+                seen.add((loc, short(x)))
+                n += 1
+                ok = x['fn'] in WHOLE
+                run.instance('R-PSK-VERDICT', '%s: cached server name compared with %s()' % (f['name'], x['fn']))
+                run.oblige('R-PSK-VERDICT', ok, '%s:sni-cache-hit-means-equal' % f['name'])
+                if not ok:
+                    run.violation('R-PSK-VERDICT', f['name'], loc, 'sni-cache-prefix-match',
+                                  '`%s` compares a cached server name over a bounded number of bytes: a name that is a prefix of a cached one (or an absent name, length 0) '
+                                  'counts as cached, the application\'s SNI validation is skipped and the other name\'s credentials are used' % short(x)[:70], [])
+    run.require_count(n >= (2 if run.cfg == 'base' else 0) or run.fixture_mode, 'R-PSK-VERDICT(sni cache): fewer than 2 comparisons against a cached server name found')
